@@ -476,6 +476,42 @@ func ruleGuardScoped(c *Ctx, keep func(string) bool) {
 				c.R.Except("R-GUARD/write", p.Pos(a.sel), f.Name, construct, reason)
 				continue
 			}
+			// default filling in the constructor: NewClient assigns a field of the
+			// configuration it was given only on the edge on which that same field
+			// was found to hold its zero value (the existing defaults are all of
+			// this shape, and the client is not shared yet)
+			if f.Name == "NewClient" && a.node != nil && strings.HasPrefix(fn, "ClientConfig.") {
+				g := p.Graph(f)
+				fv := a.fv
+				if g.OnlyViaEdge(a.node, func(e *Edge) bool {
+					at, ok := edgeAtom(info, e)
+					if !ok {
+						return false
+					}
+					switch at.Kind {
+					case "nil":
+						return at.Op == token.EQL && SelField(info, at.X) == fv
+					case "len":
+						return SelField(info, at.X) == fv && (at.Op == token.EQL && at.K == 0 || at.Op == token.LSS && at.K == 1 || at.Op == token.LEQ && at.K == 0)
+					case "cmp":
+						if at.Op != token.EQL || SelField(info, at.X) != fv {
+							return false
+						}
+						if k, isK := constInt(info, at.Y); isK && k == 0 {
+							return true
+						}
+						if sv, isS := constString(info, at.Y); isS && sv == "" {
+							return true
+						}
+					case "bool":
+						return !at.True && SelField(info, at.X) == fv
+					}
+					return false
+				}) {
+					c.R.Hold("R-GUARD/write", p.Pos(a.sel), f.Name, construct, "default filled in by the constructor on the edge on which the field holds its zero value", true)
+					continue
+				}
+			}
 			c.R.Violate("R-GUARD/write", p.Pos(a.sel), f.Name, construct,
 				"struct field written outside a constructor with no mutex held, not inside sync.Once.Do, and not in the reviewed table: a concurrent reader or writer races with it", nil)
 		}
